@@ -163,6 +163,19 @@ def run_shard(prop, modname, shard, tier, seed, scratch):
             test()
         except Unlisted:
             return rec.out(violation=rec.last_fail, wall=time.time() - t0)
+        except hypothesis.errors.Flaky:
+            # the same case violated the property on one execution and not on the next.  The checks are pure
+            # functions of the case, so this points at the code under test (e.g. a read outside an array).  It is
+            # reported as a violation only if the recorded case fails again within 5 further executions.
+            fail = getattr(rec, "last_fail", None)
+            if fail:
+                for _ in range(5):
+                    try:
+                        rec.record(fail["case"], safe_check(mod, fail["case"]))
+                    except Unlisted:
+                        rec.last_fail["nondeterministic"] = True
+                        return rec.out(violation=rec.last_fail, wall=time.time() - t0)
+            raise
         return rec.out(wall=time.time() - t0)
     except BaseException:  # harness error, reported with exit code 2
         return rec.out(error=traceback.format_exc(), wall=time.time() - t0)
